@@ -108,6 +108,7 @@ func RandomSpec(r *sim.Rand) DocSpec {
 		sp.TextOps = 1 + r.Intn(2)
 	}
 	sp.FormXObj = on(density / 2)
+	sp.StdWidths = on(density / 2)
 	return sp
 }
 
@@ -171,6 +172,7 @@ func (sp DocSpec) Features() []string {
 	add(sp.TextOps == 1, "textops=TJ")
 	add(sp.TextOps >= 2, "textops=mixed")
 	add(sp.FormXObj, "form-xobject")
+	add(sp.StdWidths, "std-widths")
 	add(sp.Revisions > 0, "revisions")
 	for _, op := range sp.RevOps {
 		add(true, fmt.Sprintf("revop=%d", op))
@@ -685,6 +687,8 @@ func SpecWithFeatures(features []string) (DocSpec, bool) {
 			sp.TextOps = 1
 		case f == "textops=mixed":
 			sp.TextOps = 2
+		case f == "std-widths":
+			sp.StdWidths = true
 		case f == "form-xobject":
 			sp.FormXObj = true
 			sp.Lines = 4
@@ -817,6 +821,8 @@ func (sp DocSpec) Without(f string) DocSpec {
 		c.KidsRef = false
 	case f == "textops=TJ", f == "textops=mixed":
 		c.TextOps = 0
+	case f == "std-widths":
+		c.StdWidths = false
 	case f == "form-xobject":
 		c.FormXObj = false
 	case f == "revisions":
